@@ -42,6 +42,12 @@ func main() {
 			prop = os.Args[2]
 		}
 		os.Exit(runSelftest(prop, 60*time.Second))
+	case "sweep":
+		fs := flag.NewFlagSet("sweep", flag.ExitOnError)
+		timeout := fs.Duration("t", 5*time.Second, "per-obligation timeout")
+		filter := fs.String("only", "", "substring filter")
+		fs.Parse(os.Args[2:])
+		os.Exit(runSweep(fs.Args(), *timeout, *filter))
 	case "replay":
 		if len(os.Args) < 3 {
 			fmt.Println("replay directory required")
